@@ -2,6 +2,7 @@ package main
 
 import (
 	"bytes"
+	"fmt"
 	"context"
 	"errors"
 	"io"
@@ -139,6 +140,11 @@ func serveScript(e *route.Engine, sc *scriptConn) (out []byte, err error) {
 	done := make(chan struct{})
 	go func() {
 		defer close(done)
+		defer func() {
+			if r := recover(); r != nil {
+				err = fmt.Errorf("PANIC in Serve: %v", r)
+			}
+		}()
 		err = e.Serve(context.Background(), conn)
 	}()
 	select {
